@@ -106,6 +106,22 @@ fn main() {
         &bodies,
         json!({"alphabet": "a 1 space \" \\ \\n NUL é U+1F600 % @ ,", "max_len": short_len, "strings": short.len(), "position": "node with lane=l, lane with node=/n"}),
     );
+    // every printable ASCII character (alone, after a letter, before a letter) as node and as lane
+    let mut ascii_pairs = vec![];
+    for c in 0x20u8..0x7f {
+        let c = c as char;
+        for s in [format!("{}", c), format!("a{}", c), format!("{}a", c)] {
+            ascii_pairs.push((s.clone(), "l".to_string()));
+            ascii_pairs.push(("/n".to_string(), s));
+        }
+    }
+    pure_leg(
+        &ctx,
+        "pure_ascii",
+        &ascii_pairs,
+        &bodies,
+        json!({"characters": "0x20..0x7e", "placements": ["c", "ac", "ca"], "position": "node with lane=l, lane with node=/n"}),
+    );
     if !ctx.quick() {
         let mut ext = design.clone();
         ext.extend(pure::extra_strings());
